@@ -19,11 +19,19 @@
     record (iff the scan reached one), AA and TC clear;
   * `C07_catalog_longest` — the entry consulted is the entry of QCLASS whose name is the longest
     suffix of QNAME among the entries inserted (C22's theorem applied to the server's catalog).
-  Partial in one respect (stated in `C07_full`): requests that carry a TSIG record reaching TSIG
-  processing get verdict `tsigReached`, which C10 decides; what happens after a *successful*
-  verification (the same dispatch) is not covered here.
+  For requests that carry a TSIG record reaching TSIG processing (verdict `tsigReached`; C10 decides
+  whether the TSIG step authenticates):
+  * `C07_after_verified_tsig` — whenever the TSIG step authenticates, the *same* decision table
+    (`endVerdict`, by `specTail_done` literally the table of `specScanWith`) is applied, and for
+    NOTIMP / REFUSED / SERVFAIL the response is `finish` of the writer the TSIG step left with only
+    the RCODE set: no record is added by the dispatch.
+  Partial in one respect (stated in `C07_full`): for those authenticated requests the theorem is about
+  the writer *state* handed to `finish`; the octets of a response that `finish` completes with a
+  TSIG record (that the RR is emitted last and nothing else changes) are C10's / C12's gap and are not
+  proved here.  For all other requests the theorems are octet-exact.
 -/
 import QV.Proofs.ServerProps
+import QV.Proofs.ScanTsigCont
 import QV.Properties.C22
 
 namespace QV.C07
@@ -90,6 +98,32 @@ theorem C07_response (cfg : Server.Cfg) (tr : Server.Transport) (now bufLen : Na
   obtain ⟨_, _, h2, h3, _, han, hns, har, hrest⟩ := errResp_facts _ _ _ _ hl
   obtain ⟨_, _, f3, f4, _, _, _, f8⟩ := flags_facts b req _ (verdictRcode_lt _) h2 h3
   exact ⟨b, hb, hl, by rw [f8, hsv], han, hns, har, hrest, f3, f4⟩
+
+/-! ### after a TSIG record that verifies -/
+
+/-- **Theorem (signed requests).** For a request whose scan reaches a well-formed TSIG record there
+    are the TSIG record `t`, the message without it `mw` and the reader `r'` after it such that:
+    if the TSIG step authenticates (returns a reader, leaving the writer `S`; C10 says exactly when)
+    and the decision table gives NOTIMP, REFUSED or SERVFAIL-for-a-zone-not-loaded, then the
+    response is `finish` of `S` with that RCODE set and nothing else changed. -/
+theorem C07_after_verified_tsig (cfg : Server.Cfg) (tr : Server.Transport) (now bufLen : Nat) (req : Bytes)
+    (hbuf : minBuf tr cfg.payload ≤ bufLen) (hpay : 512 ≤ cfg.payload) (hreq : req.size ≤ Rdata.USIZE_MAX)
+    (hr : (specScanWith (catKind cfg) cfg.payload req).respond = true)
+    (hv : (specScanWith (catKind cfg) cfg.payload req).verdict = .tsigReached) :
+    ∃ (t : Tsig.ReadTsigRr) (mw : Bytes) (r' : Reader.Reader), r'.octets = req ∧ r'.cursor ≤ req.size ∧
+      ∀ r'' S, Server.tsigAfter cfg now t mw r' (preTsigState cfg tr bufLen req) = (.ok (some r''), S) →
+        ∀ v, (v = Verdict.notImp ∨ v = .refused ∨ v = .servFailZone) →
+        endVerdict (catKind cfg) req.size (specScanWith (catKind cfg) cfg.payload req).question
+          r'.cursor ((req.getD 2 0).toNat / 8 % 16) = v →
+        Server.handleMessage cfg tr now bufLen req =
+          match Writer.finish (Writer.stRcode (verdictRcode v).1 S) Server.macFn with
+          | .ok (bytes, _) => .ok (some bytes)
+          | _ => .panic := by
+  obtain ⟨t, mw, r', h1, h2, h3⟩ := handleMessage_after_tsig cfg tr now bufLen req hbuf hpay hreq hr hv
+  refine ⟨t, mw, r', h1, h2, fun r'' S hT v hvv hev => ?_⟩
+  have := h3 r'' S hT (by rw [hev]; rcases hvv with rfl | rfl | rfl <;> simp)
+  rw [this, hev]
+  rcases hvv with rfl | rfl | rfl <;> rfl
 
 /-! ### the catalog entry used -/
 
